@@ -45,6 +45,7 @@ func vhExists(rules []Rule, from, to string) bool {
 					next[i] = zz.Or(next[i], zz.And(reach[j], link[j][i]))
 				}
 			}
+			next[i] = zz.Bind(next[i])
 		}
 		reach = next
 	}
